@@ -339,6 +339,26 @@ def check_clements(ctx, pq, U, meta):
                      % (dev2, tol, meta["cls"], d), case)
         if not (np.array_equal(w_back, w_dec) and modes_same):
             ctx.viol("clements-weights-data", "decomposition -> weights -> decomposition -> weights is not the identity (%s d=%d)" % (meta["cls"], d), case)
+        # a decomposition unpacked from weights earlier must still describe *its* unitary after other weight vectors of the
+        # same size were unpacked (a seeded change that memoised the template and filled it in place was missed by the
+        # one-at-a-time round trip)
+        held = getattr(ctx, "held_decompositions", None)
+        if held is None:
+            held = ctx.held_decompositions = {}
+        if d in held:
+            old_dec, old_U, old_cls = held[d]
+            try:
+                V_old = np.asarray(cl.inverse_clements(old_dec, conn, dtype=old_U.dtype))
+                dev3 = _maxabs(V_old - old_U) if V_old.shape == old_U.shape else float("inf")
+            except Exception as e:
+                dev3 = float("inf")
+            ctx.c["held_decomposition_checks"] = ctx.c.get("held_decomposition_checks", 0) + 1
+            if dev3 > max(tol, 1e-9) and dev3 > 1e-6:
+                ctx.viol("clements-weights-decomposition-aliased",
+                         "a decomposition unpacked from weights (d=%d, %s) no longer reproduces its unitary after another weight vector of the same size "
+                         "was unpacked: deviation %.3g" % (d, old_cls, dev3), case)
+        if dev2 <= max(tol, 1e-9):
+            held[d] = (dec2, np.array(U, copy=True), meta["cls"])
 
     # (3) the instruction list on the passive simulator
     try:
